@@ -214,6 +214,11 @@ def dbLine (st : DBRun) (lineNo : Nat) (line : String) : Except String (DBRun ×
                            cover := bump st.cover key,
                            clauseEvals := st.clauseEvals + clauses.length + corrClauses.length }
       .ok (st', out0 ++ failed ++ dv ++ c03)
+  | ["auditstream", ok, probe] =>
+    -- after a short write the log holds a fragment; no later record may be glued onto it
+    if ok == "ok=1" then .ok (st, []) else
+      .ok ({ st with fails := st.fails + 1 },
+           [s!"PROPFAIL C06 record_wellformed hist={st.hist} line={lineNo} {probe} after a short write a line of the log is not one whole record"])
   | _ =>
     if line.startsWith "#" || line.isEmpty then .ok (st, []) else .error s!"line {lineNo}: unknown line kind"
 
@@ -233,7 +238,8 @@ def aclLine (dotNL : Bool) (st : AclRun) (lineNo : Nat) (line : String) : Except
       let code := bit == "1"
       let spec := Glob.implMatch true p.toList n.toList      -- = Glob p n by C07.match_iff_glob
       let model := Glob.implMatch dotNL p.toList n.toList
-      let o1 := if code != spec then [s!"PROPFAIL C07 match_iff_glob line={lineNo} pat={ph} name={nh} code={bit} spec={if spec then 1 else 0}"] else []
+      let o1 := (if bit == "P" then [s!"PROPFAIL C07 never_panics line={lineNo} pat={ph} name={nh} (Match panicked)"] else []) ++
+                (if code != spec then [s!"PROPFAIL C07 match_iff_glob line={lineNo} pat={ph} name={nh} code={bit} spec={if spec then 1 else 0}"] else [])
       let o2 := if code != model then [s!"DIVERGE match line={lineNo} pat={ph} name={nh} code={bit} model={if model then 1 else 0}"] else []
       let key := s!"m:{if p.toList.contains '*' then "star" else "lit"}:{bit}:{if n.toList.contains '\n' then "nl" else "nonl"}:{min p.length 6}:{min n.length 8}"
       .ok ({ st with cases := st.cases + 1, fails := st.fails + o1.length, diverges := st.diverges + o2.length, cover := bump st.cover key }, o1 ++ o2)
@@ -243,7 +249,8 @@ def aclLine (dotNL : Bool) (st : AclRun) (lineNo : Nat) (line : String) : Except
     | some rs, some a, some n =>
       let code := bit == "1"
       let spec := allow true rs a n.toList
-      let o1 := if code != spec then [s!"PROPFAIL C07 allow_iff line={lineNo} rules={rules} action={ah} name={nh} code={bit}"] else []
+      let o1 := (if bit == "P" then [s!"PROPFAIL C07 never_panics line={lineNo} rules={rules} action={ah} name={nh} (Allow panicked)"] else []) ++
+                (if code != spec then [s!"PROPFAIL C07 allow_iff line={lineNo} rules={rules} action={ah} name={nh} code={bit}"] else [])
       let key := s!"allow:{rs.length}:{bit}"
       .ok ({ st with cases := st.cases + 1, fails := st.fails + o1.length, cover := bump st.cover key }, o1)
     | _, _, _ => .error s!"line {lineNo}: bad allow line"
